@@ -5,6 +5,7 @@ import (
 
 	"verif/internal/gen"
 	m "verif/internal/model"
+	"verif/internal/sb"
 )
 
 // C03: literal text, comments and verbatim sections.
@@ -41,9 +42,10 @@ func init() {
 		return chunks >= 2 && nested && hostile
 	})
 	type identCase struct {
-		Src string `json:"src"`
+		Src sb.BS `json:"src"`
 	}
-	ident := NewSub(p, "identity", func(c *Ctx, cs *identCase) *Fail {
+	ident := NewSub(p, "identity", func(c *Ctx, ic *identCase) *Fail {
+		cs := struct{ Src string }{string(ic.Src)}
 		prog := &m.Program{Env: "core", Loader: "memory", Tpls: []*m.Tpl{{Name: "main", Body: []*m.N{m.NText(cs.Src)}}}, Entry: "main"}
 		r := c.SB.Do(execReq(prog))
 		c.Ev.Count("ident\x00"+cs.Src, len(cs.Src) > 3 && !isASCII(cs.Src) || strings.ContainsAny(cs.Src, "{}%#"), "identity")
@@ -69,7 +71,7 @@ func init() {
 			for strings.Contains(s, "{{") || strings.Contains(s, "{%") || strings.Contains(s, "{#") {
 				s = strings.Replace(strings.Replace(strings.Replace(s, "{{", "{ {", -1), "{%", "{ %", -1), "{#", "{ #", -1)
 			}
-			return &identCase{Src: s}
+			return &identCase{Src: sb.BS(s)}
 		})
 	}
 	Register(p)
